@@ -8,7 +8,8 @@ V = Path(__file__).resolve().parent.parent
 src = json.loads((V / 'tools' / 'manifest_src.json').read_text())
 props = [json.loads(l)['id'] for l in (V / 'properties.jsonl').read_text().splitlines() if l.strip()]
 claimed = src['claimed']
-drivers = ' '.join(sorted({'drv_' + p.lower() for p in claimed if claimed[p].get('driver', True)}))
+drivers = ' '.join(sorted({'drv_' + p.lower() for p in claimed if claimed[p].get('driver', True)})
+                   + sorted('XsVerif.Props.' + p for p in claimed))
 man = {
     'version': 1,
     'setup_cmd': f'cd /verif/lean && lake build XsVerif {drivers}',
